@@ -12,6 +12,7 @@ import (
 	"os"
 	"path/filepath"
 	"runtime"
+	"runtime/debug"
 	"strings"
 	"sync"
 	"sync/atomic"
@@ -263,6 +264,7 @@ func evalC20(c c20Case, o *Obs) error {
 			}
 		}
 		events := make([][]c20Event, len(c.Progs))
+		panicCh := make(chan error, 64)
 		start := make(chan struct{})
 		var wg sync.WaitGroup
 		t0 := time.Now()
@@ -272,6 +274,7 @@ func evalC20(c c20Case, o *Obs) error {
 			wg.Add(1)
 			go func() {
 				defer wg.Done()
+				defer c20Recover(panicCh)
 				<-start
 				for i, in := range inputs[g] {
 					ev := &events[g][i]
@@ -318,6 +321,7 @@ func evalC20(c c20Case, o *Obs) error {
 		wg.Add(1)
 		go func() {
 			defer wg.Done()
+			defer c20Recover(panicCh)
 			<-start
 			for i, in := range byOps {
 				switch in.op.Op {
@@ -335,7 +339,9 @@ func evalC20(c c20Case, o *Obs) error {
 			}
 		}()
 		close(start)
-		wg.Wait()
+		if err := c20Join(&wg, panicCh, progString(c)); err != nil {
+			return err
+		}
 		// ---- after the join ----
 		for i := range byOps {
 			if byGot[i] != byWant[i] {
@@ -526,6 +532,17 @@ func genC20(t *rapid.T) c20Case {
 		if c.Preload == 0 {
 			c.Preload = 2
 		}
+		if rapid.Bool().Draw(t, "hcp2pk") {
+			// the pay-to-pubkey-only update rule: transactions whose outputs pay to / are multisig over the watched
+			// keys (pool items 0 and 1, which are the first two preloaded items), next to outputs of other kinds
+			c.Flags = 2
+			c.Preload = 2
+			c.Txs.Txs = nil
+			for i := 0; i < 3; i++ {
+				c.Txs.Txs = append(c.Txs.Txs, c10Tx{LockTime: uint32(i), Ins: []c10In{{Src: -1 - i, Out: uint32(i), Script: scriptSpec{Cls: "empty"}}},
+					Outs: []scriptSpec{{Cls: "p2pk", Items: []int{i % 2}}, {Cls: "multisig", Items: []int{0, 1}, M: i}, {Cls: "p2pkh", Items: []int{2}}, {Cls: "p2pk", Items: []int{(i + 1) % 2}}}})
+			}
+		}
 		g = rapid.SampledFrom([]int{3, 5, 9}).Draw(t, "hcg")
 		for i := 0; i < g-1; i++ {
 			var prog []c20Op
@@ -611,6 +628,39 @@ func genC20(t *rapid.T) c20Case {
 }
 
 var kC20 = register(&Kind[c20Case]{Prop: "C20", Name: "program", Gen: genC20, Eval: evalC20})
+
+// c20Recover turns a panic inside a worker goroutine into a value for c20Join.  (A panic while the filter's
+// lock is held leaves the other workers blocked for good, so the join cannot simply wait for everybody.)
+func c20Recover(ch chan<- error) {
+	if r := recover(); r != nil {
+		st := string(debug.Stack())
+		err := fmt.Errorf("panic in a goroutine using the filter: %v\n%s", r, trimStack(st))
+		if !strings.Contains(st, "github.com/gcash/bchutil") && !strings.Contains(st, "/repo/") {
+			err = hbug("panic in harness goroutine: %v\n%s", r, trimStack(st))
+		}
+		select {
+		case ch <- err:
+		default:
+		}
+	}
+}
+
+// c20Join waits for all workers, or for the first panic among them.
+func c20Join(wg *sync.WaitGroup, panicCh <-chan error, prog string) error {
+	done := make(chan struct{})
+	go func() { wg.Wait(); close(done) }()
+	select {
+	case <-done:
+		select {
+		case err := <-panicCh:
+			return fmt.Errorf("%w; program %s", err, prog)
+		default:
+			return nil
+		}
+	case err := <-panicCh:
+		return fmt.Errorf("%w; program %s", err, prog)
+	}
+}
 
 // c20Watchdog: filter calls that never return (a lock taken twice, a lock never released) cannot be judged
 // after the fact.  If the guarded section is still running after the given number of seconds, the process
